@@ -451,6 +451,131 @@ func checkNilFuncValues(c *Ctx, fns []*ssa.Function) {
 		})
 	}
 	R.Extra["func_typed_merges_examined"] = examined
+
+	// function-typed struct fields that may be nil (the module itself tests them against nil somewhere): a call through
+	// such a field must be behind "field != nil", directly or through a boolean field that is only ever set to a
+	// non-false value under that test (c.readDecompress is set only when a decompressor was negotiated)
+	fieldOf := func(v ssa.Value) *types.Var {
+		ld, ok := v.(*ssa.UnOp)
+		if !ok || ld.Op != token.MUL {
+			return nil
+		}
+		fa, ok := ld.X.(*ssa.FieldAddr)
+		if !ok {
+			return nil
+		}
+		return core.FieldVar(fa)
+	}
+	// nullable: the module tests the field against nil somewhere, or no store to it is unconditional (every store sits
+	// behind some condition, so an object can exist without it)
+	nullable := map[*types.Var]bool{}
+	uncond := map[*types.Var]bool{}
+	stored := map[*types.Var]bool{}
+	mods := P.ModuleFuncs()
+	for _, fn := range mods {
+		core.EachInstr(fn, func(in ssa.Instruction) {
+			switch x := in.(type) {
+			case *ssa.BinOp:
+				if (x.Op != token.EQL && x.Op != token.NEQ) || !core.IsNilConst(x.Y) {
+					return
+				}
+				if f := fieldOf(x.X); f != nil {
+					if _, isSig := f.Type().Underlying().(*types.Signature); isSig {
+						nullable[f] = true
+					}
+				}
+			case *ssa.Store:
+				fa, ok := x.Addr.(*ssa.FieldAddr)
+				if !ok {
+					return
+				}
+				f := core.FieldVar(fa)
+				if f == nil {
+					return
+				}
+				if _, isSig := f.Type().Underlying().(*types.Signature); !isSig || core.IsNilConst(x.Val) {
+					return
+				}
+				stored[f] = true
+				if len(core.Guards(x.Block())) == 0 {
+					uncond[f] = true
+				}
+			}
+		})
+	}
+	for f := range stored {
+		if !uncond[f] && !f.Exported() {
+			nullable[f] = true
+		}
+	}
+	guardedByField := func(b *ssa.BasicBlock, f *types.Var) bool {
+		for _, a := range core.GuardAtoms(b) {
+			if a.Op == "!=" && (a.R == "nil" || strings.HasPrefix(a.R, "nil:")) && fieldOf(a.LV) == f {
+				return true
+			}
+		}
+		return false
+	}
+	counts2 := map[string]int{}
+	for _, fn := range fns {
+		core.EachInstr(fn, func(in ssa.Instruction) {
+			call, ok := in.(*ssa.Call)
+			if !ok || call.Call.IsInvoke() {
+				return
+			}
+			f := fieldOf(call.Call.Value)
+			if f == nil || !nullable[f] {
+				return
+			}
+			key := ordKey(counts2, core.QualName(fn)+"|call through "+f.Name())
+			if guardedByField(call.Block(), f) {
+				R.OK("C07.nil", key, P.InstrPos(call), "the call is behind "+f.Name()+" != nil")
+				return
+			}
+			// a boolean flag guard whose every non-false store is behind field != nil
+			okFlag := ""
+			for _, a := range core.GuardAtoms(call.Block()) {
+				flag := fieldOf(a.LV)
+				if flag == nil || a.Op != "is" {
+					continue
+				}
+				if bt, isB := flag.Type().Underlying().(*types.Basic); !isB || bt.Kind() != types.Bool {
+					continue
+				}
+				all, n := true, 0
+				for _, g := range mods {
+					core.EachInstr(g, func(in2 ssa.Instruction) {
+						st, isSt := in2.(*ssa.Store)
+						if !isSt {
+							return
+						}
+						fa, isFA := st.Addr.(*ssa.FieldAddr)
+						if !isFA || core.FieldVar(fa) != flag {
+							return
+						}
+						if k, isK := core.ConstInt(st.Val); isK && k == 0 {
+							return
+						}
+						if c, isC := st.Val.(*ssa.Const); isC && c.Value != nil && c.Value.String() == "false" {
+							return
+						}
+						n++
+						if !guardedByField(st.Block(), f) {
+							all = false
+						}
+					})
+				}
+				if all && n > 0 {
+					okFlag = flag.Name()
+				}
+			}
+			if okFlag != "" {
+				R.OK("C07.nil", key, P.InstrPos(call), "the call is behind the flag "+okFlag+", which is only set under "+f.Name()+" != nil")
+			} else {
+				R.Fail("C07.nil", key, P.InstrPos(call), "the function field "+f.Name()+" can be nil (the code tests it elsewhere) and is called here without a test that implies it is set: a message can make this call a nil dereference", nil)
+			}
+		})
+	}
 }
 
 // checkLockReleased (part of "always returns"): a mutex taken while decoding is released on every path to a return
